@@ -116,6 +116,9 @@ def templates(cfg):
     SB = [("t", {"a": INT, "p": BOOL, "g": INT})]
     out.append(Template("c05.typed.shift_bool_fwd", SB, lambda p, t: t >> p.mutate(y=t.p.shift(-1, arrange=[t.a.nulls_last(), t.g.nulls_last()]), z=t.p.shift(1, arrange=[t.a.nulls_last(), t.g.nulls_last()])), props=("C05",)))
     out.append(Template("c05.typed.shift_bool_fill", SB, lambda p, t: t >> p.mutate(y=t.p.shift(-1, False, arrange=[t.a.nulls_last(), t.g.nulls_last()], partition_by=t.g)), props=("C05",)))
+    out.append(Template("c05.typed.bool_sum_nopart", SB, lambda p, t: t >> p.mutate(s=t.p.sum(), s1=t.p.sum() + 1, e=(t.a > 0).sum()), props=("C05",)))
+    out.append(Template("c05.typed.bool_sum_grouped", SB, lambda p, t: t >> p.group_by(t.g) >> p.mutate(s=t.p.sum(), m=t.p.max()) >> p.ungroup(), props=("C05",)))
+    out.append(Template("c05.typed.bool_sum_summarize", SB, lambda p, t: t >> p.group_by(t.g) >> p.summarize(s=t.p.sum(), e=(t.a > 0).sum()), props=("C05",)))
     out.append(Template("c05.typed.bool_window_aggs", SB, lambda p, t: t >> p.mutate(x=t.p.any(partition_by=t.g), y=t.p.all(), m=t.p.max(partition_by=t.g), s=t.p.sum(partition_by=t.g)), props=("C05",)))
     # grouping survives alias / select / rename / filter and still partitions the window
     T("grouping.through_alias", lambda p, t: t >> p.group_by(t.g) >> p.alias("z") >> p.mutate(y=p.C.b.sum(), r=p.row_number(arrange=[p.C.a.nulls_last(), p.C.b.nulls_last()])) >> p.ungroup())
